@@ -1,9 +1,10 @@
 CONFIG = {
     "id": "C10",
     "coq_targets": ["Gen/FormulasQueue.v", "Proofs/FormulasQueueProofs.v",
-                    "Props/C10.v", "Model/QueueCheck.v", "Model/DrainCheck.v", "Model/SimCheck.v"],
+                    "Model/SimSkeleton.v", "Gen/RunSkeleton.v", "Model/SimSkeletonInterp.v", "Proofs/RunSkeletonProofs.v",
+                    "Proofs/SimActiveFrame.v", "Proofs/RunSkeletonInterpProofs.v", "Props/C10.v", "Model/QueueCheck.v", "Model/DrainCheck.v", "Model/SimCheck.v"],
     "prop_files": ["Props/C10.v"],
-    "gen": ["FormulasQueue"],
+    "gen": ["FormulasQueue", "RunSkeleton"],
     "components": [
         # the real queue.Handler through New/Insert/Pop/IsEmpty
         {"name": "queue", "modules": ["Model.Queue", "Model.QueueCheck"],
@@ -37,8 +38,9 @@ CONFIG = {
             "scripts of executing inserts and action callbacks issue the same effects; compared: InsertStart/InsertEnd/"
             "ActionStart/ActionEnd/TargetDeath/Termination events, the Execute and action callbacks, executeQueue's "
             "result and IsEmpty; a case is non-trivial when distinct as an input term",
-    "trusted": [
-        "TRANSLATED from the Go source on every run and proved equal to the model (Gen/FormulasQueue.v; "
+    "trusted": ["run loop, TRANSLATED from the Go source on every run (go2coq RunSkeleton -> Gen/RunSkeleton.v; types and pinned table Model/SimSkeleton.v; interpreter Model/SimSkeletonInterp.v; Proofs/RunSkeletonProofs.v, Proofs/RunSkeletonInterpProofs.v; theorem C10_run_skeleton_is_the_source): EVERY statement of EVERY function of pkg/simulation/run.go, action.go and death.go as an ordered step (emit with payload, call, bind, assignment, if / for / range / switch with the guard as normalised source text, return / tail call with the next state), plus the values of the integer constants they name; no statement is skipped, a statement or a nested effectful call outside the recognised shapes makes the translator fail closed (only listed effect-free queries may be nested in an expression). PINNED (table = hand-written expected table, reflexivity): all 22 functions - Run, initialize, startBattle, engage, beginTurn, phase1, action, phase2, endTurn, exitCheck, InsertAction, InsertAbility, InsertUlt, ultCheck, executeQueue, executeAction, executeUlt, executeInsert, clearActionTargets, deathCheck, kill, deathEvent. INTERPRETED (interpretation of the generated steps over the model's own state, outcome type and functions proved equal to the model for all cfg / fuel / states): engage, beginTurn, phase1, action, phase2, endTurn, and their chaining = Sim.one_turn (equal outcomes; equal traces on an error outcome), phase2+endTurn = Sim.phase2, engage = the battle-start drain of Sim.start",
+                'run loop, still HAND-WRITTEN / trusted under the translator tie: the denotation tables of Model/SimSkeletonInterp.v (which model function a call / event / guard text stands for: sim.deathCheck -> death_check, sim.Modifier.Tick(.., ModifierPhase1/2) -> run_slot LPhase1/LPhase2, sim.executeQueue -> execute_queue with phase < info.ActionEnd decided on the generated constants, sim.exitCheck -> exit_check, sim.executeAction -> execute_action, Turn.StartTurn / ResetTurn -> Model/Turn.v) and its no-counterpart list (the TurnStart and ActionEnd modifier ticks, createSnapshot, the enemy stance reset of phase1: identity in the model); the BODIES of exitCheck, executeQueue, ultCheck, executeAction / executeUlt / executeInsert, deathCheck / kill / deathEvent, initialize, startBattle, Run are pinned only (their model counterparts exit_check, drain, ult_check, execute_action, death_check / announce, start are shaped differently: fuel recursion, filters instead of index loops, units built in one step) and stay tied by correspondence; everything the called services do (turn manager, attribute service, modifier manager, queue, event system, character / enemy managers, IsValid / IsCharacter / onField / CanUseUlt / createSnapshot) is outside the three files; event payload texts are pinned but not interpreted',
+                "TRANSLATED from the Go source on every run and proved equal to the model (Gen/FormulasQueue.v; "
         "Proofs/FormulasQueueProofs.v; theorem C10_model_formulas_are_the_source): queue.minHeap.Less (priority, "
         "then insertion id), every info.InsertPriority value (the model uses CharInsertAction and "
         "EnemyInsertAction), BehaviorFlag_STAT_CTRL and BehaviorFlag_DISABLE_ACTION (the abort flags of an "
@@ -67,10 +69,10 @@ CONFIG = {
                       "executeQueue drain (all interleavings of inserts and pops, inserts issued by executing inserts, "
                       "all life states and flags), tied to the Go code by exact correspondence on the real "
                       "queue.Handler and on the real executeQueue, plus trace monitors on the implementation.",
-        "level_note": "go2coq FormulasQueue translator + kernel-checked equalities generated = model; "
+        "level_note": "go2coq RunSkeleton translator (run.go, action.go, death.go -> step table) + pinned table + interpreter Model/SimSkeletonInterp.v + kernel-checked equality with Sim.one_turn; " "go2coq FormulasQueue translator + kernel-checked equalities generated = model; "
                       "Coq kernel; hand-written models Model/Queue.v and Model/QueueHeap.v (array heap proved to refine "
                       "pop-min); correspondence harness; add-only verif hook pkg/simulation/export_verif.go.",
-        "technique": "source-to-Coq translation of the order and constants with equality proofs + "
+        "technique": "source-to-Coq translation of the run loop into a step table, pinned and interpreted (state functions of a turn = Sim.one_turn) + " "source-to-Coq translation of the order and constants with equality proofs + "
                      "Coq proof (strict total order, minimum by invariant, invariants over op lists and drain "
                      "iterations) + model/implementation correspondence + monitors",
         "design_ref": "DESIGN.md section 7, C10",
